@@ -352,15 +352,270 @@ def gen_config(rng, thorough=False, max_wfs=None, n_wfs=None, hetero=False):
             "containers": rng.choice(["list", "ndarray", "list", "ndarray", "float32"])}
 
 
-def make_obj(cfg, threads=1):
+FIELDS = ["subap_diameters", "gs_altitudes", "gs_positions", "wfs_wavelengths", "layer_altitudes", "layer_r0s", "layer_L0s"]
+MASK_KINDS = ["float", "bool", "int", "uint8", "float32", "fortran", "strided", "negstride", "readonly", "stack3d", "tuple"]
+DECORATIONS = ["legacy", "legacy", "legacy", "f4-all", "f4-all", "mixed", "mixed", "layouts", "tuples", "ints"]
+_DT = {"f8": numpy.float64, "f4": numpy.float32, "i8": numpy.int64, "i4": numpy.int32}
+
+
+def _field(cfg, name, value=None):
+    """the object a caller hands over for constructor argument `name` (value: the numbers, as nested lists).  Without a
+    `field_kinds` entry: what rounds 1-4 handed over (`containers`: lists, float64 arrays, float32 arrays for r0/L0/diameters;
+    layer altitudes always a float64 array).  With one: list / tuple / float64 / float32 / int64 / int32 arrays / Python ints,
+    or a float64 array with an unusual memory layout (strided view, negative stride, Fortran order, read-only, broadcast)"""
+    v = cfg[name] if value is None else value
+    kind = (cfg.get("field_kinds") or {}).get(name)
+    if kind is None:
+        if name == "layer_altitudes":
+            return numpy.array(v)
+        if cfg.get("containers") == "float32" and name in ("layer_r0s", "layer_L0s", "subap_diameters"):
+            return numpy.array(v, dtype=numpy.float32)
+        # (inner lists copied: the caller's container is the object's, not the configuration record's — op "CI" writes into it)
+        return numpy.array(v) if cfg.get("containers") in ("ndarray", "float32") else [list(x) if isinstance(x, (list, tuple)) else x for x in v]
+    if kind == "list":
+        return [list(x) if isinstance(x, (list, tuple)) else x for x in v]
+    if kind == "tuple":
+        return tuple(tuple(x) if isinstance(x, (list, tuple)) else x for x in v)
+    if kind == "pyint":
+        return [int(x) for x in v]
+    if kind in _DT:
+        return numpy.array(v, dtype=_DT[kind])
+    a = numpy.array(v, dtype=numpy.float64)
+    if kind == "f8-strided":
+        big = numpy.full((2 * a.shape[0],) + a.shape[1:], 1e300)
+        big[::2] = a
+        return big[::2]
+    if kind == "f8-negstride":
+        return numpy.array(a[::-1])[::-1]
+    if kind == "f8-fortran":
+        return numpy.asfortranarray(a) if a.ndim == 2 else numpy.array(a[::-1])[::-1]
+    if kind == "f8-readonly":
+        a.setflags(write=False)
+        return a
+    if kind == "f8-broadcast":                   # stride 0 (and read-only) when every entry is the same number
+        if a.ndim == 1 and a.size and (a == a[0]).all():
+            return numpy.broadcast_to(numpy.float64(a[0]), a.shape)
+        a.setflags(write=False)
+        return a
+    raise ValueError(kind)
+
+
+def _masks(cfg, masks=None):
+    """the pupil masks as a caller may hold them: element type, memory layout and outer container vary (`mask_kind`)"""
+    kind = cfg.get("mask_kind", "float")
+    ms = cfg["pupil_masks"] if masks is None else masks
+    if kind in ("bool", "int", "uint8", "float32"):
+        return [numpy.array(m, dtype=kind) for m in ms]
+    if kind == "fortran":
+        return [numpy.asfortranarray(numpy.array(m, dtype=float)) for m in ms]
+    if kind == "strided":
+        out = []
+        for m in ms:
+            a = numpy.array(m, dtype=float)
+            big = numpy.ones((2 * a.shape[0], 2 * a.shape[1] + 1))     # the skipped entries say "active": they must not be read
+            big[::2, ::2][:, :a.shape[1]] = a
+            out.append(big[::2, ::2][:, :a.shape[1]])
+        return out
+    if kind == "negstride":
+        return [numpy.array(numpy.array(m, dtype=float)[::-1, ::-1])[::-1, ::-1] for m in ms]
+    if kind == "readonly":
+        out = [numpy.array(m, dtype=float) for m in ms]
+        for a in out:
+            a.setflags(write=False)
+        return out
+    if kind == "stack3d" and len({(len(m), len(m[0])) for m in ms}) == 1:
+        return numpy.array(ms, dtype=int)         # one (n_wfs, nx, ny) array, as the test-suite builds it
+    if kind == "tuple":
+        return tuple(numpy.array(m, dtype=float) for m in ms)
+    return [numpy.array(m, dtype=float) for m in ms]
+
+
+def _cls(cfg):
+    """the entry point: the class under its module name or under one of the package-level names"""
     sc = sc_module()
-    masks = [numpy.array(m, dtype=float) for m in cfg["pupil_masks"]]
-    conv = (lambda x: numpy.array(x)) if cfg.get("containers") in ("ndarray", "float32") else (lambda x: list(x))
-    c32 = (lambda x: numpy.array(x, dtype=numpy.float32)) if cfg.get("containers") == "float32" else conv
-    return sc.CovarianceMatrix(cfg["n_wfs"], masks, cfg["telescope_diameter"], c32(cfg["subap_diameters"]),
-                               conv(cfg["gs_altitudes"]), conv(cfg["gs_positions"]), conv(cfg["wfs_wavelengths"]),
-                               cfg["n_layers"], numpy.array(cfg["layer_altitudes"]), c32(cfg["layer_r0s"]),
-                               c32(cfg["layer_L0s"]), threads)
+    entry = cfg.get("entry", "module")
+    if entry == "turbulence":
+        import aotools.turbulence
+        return getattr(aotools.turbulence, "CovarianceMatrix", sc.CovarianceMatrix)
+    if entry == "aotools":
+        import aotools
+        return getattr(aotools, "CovarianceMatrix", sc.CovarianceMatrix)
+    return sc.CovarianceMatrix
+
+
+def _int(cfg, n):
+    return numpy.int64(n) if cfg.get("np_ints") else n
+
+
+def _tel(cfg):
+    t, kind = cfg["telescope_diameter"], cfg.get("tel_kind", "float")
+    if kind == "int" and float(t).is_integer():
+        return int(t)
+    if kind == "f8":
+        return numpy.float64(t)
+    if kind == "f4":
+        return numpy.float32(t)
+    if kind == "0d":
+        return numpy.array(float(t))
+    return t
+
+
+BUILT = []                # the configurations objects were made of in this process, in order (the last 200)
+
+
+def make_obj(cfg, threads=1, share=None, fresh=()):
+    """`share`: an existing object whose CURRENT attribute values (the caller's arrays) are handed to the new object as they
+    are, except the arguments named in `fresh` — two instruments described by the same arrays"""
+    def arg(name):
+        if share is not None and name not in fresh and hasattr(share, name):
+            return getattr(share, name)
+        return _masks(cfg) if name == "pupil_masks" else _field(cfg, name)
+    if not BUILT or BUILT[-1] is not cfg:
+        BUILT.append(cfg)
+        del BUILT[:-200]
+    return _cls(cfg)(_int(cfg, cfg["n_wfs"]), arg("pupil_masks"), _tel(cfg), arg("subap_diameters"),
+                     arg("gs_altitudes"), arg("gs_positions"), arg("wfs_wavelengths"),
+                     _int(cfg, cfg["n_layers"]), arg("layer_altitudes"), arg("layer_r0s"),
+                     arg("layer_L0s"), _int(cfg, threads))
+
+
+def decorate(rng, cfg, which=None):
+    """how the caller holds the numbers of `cfg` (the numbers themselves are not changed)"""
+    which = which or rng.choice(DECORATIONS)
+    cfg = dict(cfg)
+    cfg["decor"] = which
+    if which == "legacy":
+        return cfg
+    if which == "f4-all":                        # a single-precision caller: EVERY per-sensor / per-layer number is float32
+        fk = {f: "f4" for f in FIELDS}
+    elif which == "mixed":
+        fk = {f: rng.choice(["list", "f8", "f4", "tuple"]) for f in FIELDS}
+    elif which == "layouts":
+        fk = {f: rng.choice(["f8-strided", "f8-negstride", "f8-fortran", "f8-readonly", "f8-broadcast"]) for f in FIELDS}
+    elif which == "tuples":
+        fk = {f: "tuple" for f in FIELDS}
+    elif which == "ints":                        # integer-valued numbers given as integers
+        fk = {f: rng.choice(["list", "f8"]) for f in FIELDS}
+        fk["layer_L0s"] = rng.choice(["i8", "i4", "pyint"])
+        if all(float(a).is_integer() for a in cfg["gs_altitudes"]):
+            fk["gs_altitudes"] = rng.choice(["i8", "i4", "pyint"])
+    else:
+        raise ValueError(which)
+    cfg["field_kinds"] = fk
+    cfg["mask_kind"] = rng.choice(MASK_KINDS)
+    cfg["np_ints"] = rng.random() < 0.4
+    cfg["entry"] = rng.choice(["module", "turbulence", "aotools"])
+    cfg["tel_kind"] = rng.choice(["float", "int", "f8", "f4"] if which != "f4-all" else ["f4", "f4", "float"])
+    return cfg
+
+
+def _circle(n):
+    c = (n - 1) / 2.0
+    return [[1 if (x - c) ** 2 + (y - c) ** 2 <= (n / 2.0) ** 2 else 0 for y in range(n)] for x in range(n)]
+
+
+SPECIALS = ["large", "many-layers", "many-wfs", "single-subap", "dup-layers", "on-axis", "unsorted-layers"]
+
+
+def shuffle_layers(rng, cfg, how=None):
+    """the layers listed in another order than from the ground up (descending, or any order): same atmosphere, but the
+    float32 accumulation runs through the layers in the order they are listed — in BOTH paths"""
+    n = cfg["n_layers"]
+    order = list(range(n))
+    if n >= 2:
+        while order == list(range(n)):
+            if (how or rng.choice(["descending", "any"])) == "descending":
+                order = order[::-1]
+            else:
+                rng.shuffle(order)
+    cfg = dict(cfg)
+    for f in ("layer_altitudes", "layer_r0s", "layer_L0s"):
+        cfg[f] = [cfg[f][k] for k in order]
+    cfg["layer_order"] = "as-listed:" + ",".join(str(k) for k in order)
+    return cfg
+
+
+def gen_special(rng, kind, thorough=False):
+    """input classes the general generator produces never or almost never (the numbers stay inside its ranges)"""
+    def layers(cfg, n):
+        alts = sorted(rng.choice([0.0, 500.0, 2000.0, 5000.0, 10000.0, 15000.0]) + rng.uniform(0, 100) for _ in range(n))
+        if rng.random() < 0.5:
+            alts[0] = 0.0
+        cfg.update(n_layers=n, layer_altitudes=alts, layer_r0s=[rng.uniform(0.05, 1.0) for _ in range(n)],
+                   layer_L0s=[rng.choice([10.0, 25.0, 50.0, 100.0]) for _ in range(n)])
+    if kind == "large":
+        # realistic sensor sizes: 32-52 active sub-apertures each (a task's blocks have > 1024 entries and pickle to > 64 kB, the
+        # matrix has > 2^14 entries), sensors of different size in descending, ascending or mixed order
+        cfg = gen_config(rng, n_wfs=rng.choice([2, 2, 2, 3]), hetero=rng.random() < 0.5)
+        tel = cfg["telescope_diameter"]
+        masks, diams = [], []
+        for w in range(cfg["n_wfs"]):
+            nx = rng.choice([6, 7, 7, 8] if thorough else [6, 7])
+            m = _circle(nx)
+            if rng.random() < 0.5:
+                m[rng.randrange(nx)][rng.randrange(nx)] = 0
+            masks.append(m)
+            diams.append(tel / nx * rng.choice([1.0, 1.0, 0.9]))
+        if abs(diams[1] - diams[0]) < 1e-9 and rng.random() < 0.5:
+            diams[1] = diams[0] * 0.8
+        cfg.update(pupil_masks=masks, subap_diameters=diams)
+        layers(cfg, rng.choice([2, 3]))
+    elif kind == "many-layers":                  # more layers than any sensible per-round buffer, and than 4·workers
+        cfg = gen_config(rng, n_wfs=rng.choice([1, 2, 2, 3] if thorough else [1, 2, 2]))
+        layers(cfg, rng.choice([9, 12, 17, 35] if thorough else [9, 12]))
+    elif kind == "many-wfs":                     # 21 / 28 / 36 tasks per layer: Pool.map puts several tasks into one chunk for 2-8 workers
+        cfg = gen_config(rng, n_wfs=rng.choice([6, 7, 8] if thorough else [6, 7]))
+        cfg["pupil_masks"] = [[row[:3] for row in m[:3]] for m in cfg["pupil_masks"]]
+        for m in cfg["pupil_masks"]:
+            if not any(any(r) for r in m):
+                m[0][0] = 1
+        cfg["subap_diameters"] = [cfg["telescope_diameter"] / len(m) * (0.9 if k % 3 == 2 else 1.0) for k, m in enumerate(cfg["pupil_masks"])]
+        if cfg["n_layers"] > 2:
+            layers(cfg, 2)
+    elif kind == "single-subap":                 # a sensor with exactly one active sub-aperture (1×n and n×1 blocks), or all of them
+        cfg = gen_config(rng, n_wfs=rng.choice([1, 2, 2, 3, 3] if thorough else [2, 2, 3]))
+        masks = [[row[:] for row in m] for m in cfg["pupil_masks"]]
+        which = list(range(cfg["n_wfs"])) if rng.random() < 0.3 else [rng.randrange(cfg["n_wfs"])]
+        for w in which:
+            nx, ny = len(masks[w]), len(masks[w][0])
+            masks[w] = [[0] * ny for _ in range(nx)]
+            masks[w][rng.randrange(nx)][rng.randrange(ny)] = 1
+        cfg["pupil_masks"] = masks
+    elif kind == "dup-layers":
+        # layers that agree in SOME of their parameters: two at the same altitude with different turbulence, two with the same
+        # r0 and L0 at different altitudes (a key made of only part of a layer's parameters confuses them); all layers identical
+        cfg = gen_config(rng, hetero=True)
+        if cfg["n_layers"] < 3:
+            layers(cfg, rng.choice([3, 4]))
+            if cfg["layer_altitudes"][-1] < 2000.0:
+                cfg["layer_altitudes"][-1] = rng.choice([5000.0, 10000.0, 15000.0]) + rng.uniform(0, 100)
+        for f in ("layer_altitudes", "layer_r0s", "layer_L0s"):
+            cfg[f] = list(cfg[f])
+        if thorough and rng.random() < 0.25:
+            for f in ("layer_altitudes", "layer_r0s", "layer_L0s"):
+                cfg[f] = [cfg[f][-1]] * cfg["n_layers"]
+        else:
+            k = rng.randrange(1, cfg["n_layers"] - 1)                  # layers k-1, k: same altitude; layers k, k+1: same turbulence
+            cfg["layer_altitudes"][k - 1] = cfg["layer_altitudes"][k]
+            cfg["layer_r0s"][k + 1] = cfg["layer_r0s"][k]
+            cfg["layer_L0s"][k + 1] = cfg["layer_L0s"][k]
+            if cfg["layer_L0s"][k - 1] == cfg["layer_L0s"][k]:
+                cfg["layer_L0s"][k - 1] = 10.0 if cfg["layer_L0s"][k] != 10.0 else 25.0
+    elif kind == "on-axis":                      # the usual truth sensor: an NGS at exactly (0, 0); and every sensor on axis
+        cfg = gen_config(rng, hetero=rng.random() < 0.5)
+        cfg["gs_positions"] = [list(p) for p in cfg["gs_positions"]]
+        for w in (range(cfg["n_wfs"]) if rng.random() < 0.25 else [0]):
+            cfg["gs_positions"][w] = [0.0, 0.0] if rng.random() < 0.7 else [0, 0]
+        cfg["gs_altitudes"] = [0] + list(cfg["gs_altitudes"][1:])
+    elif kind == "unsorted-layers":
+        cfg = gen_config(rng, hetero=True)
+        if cfg["n_layers"] < 3 and rng.random() < 0.7:
+            layers(cfg, rng.choice([3, 4, 5]))
+        cfg = shuffle_layers(rng, cfg)
+    else:
+        raise ValueError(kind)
+    cfg["special"] = kind
+    return cfg
 
 
 def cfg_class(cfg):
@@ -368,14 +623,14 @@ def cfg_class(cfg):
     ngs_off = any(a == 0 and any(abs(v) > 0 for v in p) for a, p in zip(cfg["gs_altitudes"], cfg["gs_positions"]))
     up = any(h > 0 for h in cfg["layer_altitudes"])
     mixed = len({(a != 0, round(d, 9)) for a, d in zip(cfg["gs_altitudes"], cfg["subap_diameters"])}) > 1
-    return "wfs%d:layers%d%s%s%s" % (cfg["n_wfs"], cfg["n_layers"], ":identical-sensors" if same else "",
-                                   ":offaxis-ngs+elevated" if ngs_off and up else "", ":mixed-diam/gs+elevated" if mixed and up else "")
+    return "wfs%d:layers%d%s%s%s%s%s" % (cfg["n_wfs"], cfg["n_layers"], ":identical-sensors" if same else "",
+                                       ":offaxis-ngs+elevated" if ngs_off and up else "", ":mixed-diam/gs+elevated" if mixed and up else "",
+                                       (":" + cfg["special"] if cfg.get("special") else "") + (":layers-unsorted" if cfg.get("layer_order") and not cfg.get("special") else ""),
+                                       ":held-as-" + cfg["decor"] if cfg.get("decor", "legacy") != "legacy" else "")
 
 
 def _as_container(cfg, value, attr=None):
-    if cfg.get("containers") == "float32" and attr in ("layer_r0s", "layer_L0s", "subap_diameters"):
-        return numpy.array(value, dtype=numpy.float32)        # as make_obj hands them over
-    return numpy.array(value) if cfg.get("containers") in ("ndarray", "float32") else list(value)
+    return _field(cfg, attr, value)
 
 
 def gen_reconfigure(rng, cfg):
@@ -423,6 +678,154 @@ def first_diff(a, b):
     return "%d of %d entries differ; first at %s: %r vs %r" % (len(w), a.size, i, float(a[i]), float(b[i]))
 
 
+# ------------------------------------------------------------------------------------------ references from a pristine process
+def _build_sequence(seq):
+    """in the CURRENT process: build every (mode, configuration) of `seq` in order ("mp": two workers under the controlled pool, in
+    process); returns the last matrix"""
+    out = None
+    for mode, cfg in seq:
+        if mode == "mp":
+            with pool_patch(lambda p: ControlledPool(p, lambda n: list(range(n)))):
+                out = make_obj(cfg, 2).make_covariance_matrix()
+        else:
+            out = make_obj(cfg, 1).make_covariance_matrix()
+    return out
+
+
+def _pristine_one(cfg, conn):
+    try:
+        conn.send(("ok", _build_sequence(cfg) if isinstance(cfg, list) else make_obj(cfg, 1).make_covariance_matrix()))
+    except (OSError, MemoryError) as ex:          # infrastructure, not a verdict
+        conn.send(("infra", "%s: %s" % (type(ex).__name__, ex)))
+    except BaseException as ex:                   # noqa: B036 — whatever else happens is reported to the asking process
+        conn.send(("err", "%s: %s" % (type(ex).__name__, ex)))
+    finally:
+        conn.close()
+
+
+def _pristine_server(conn):
+    ctx = multiprocessing.get_context("fork")
+    try:
+        sc_module()                               # imported (no call made), so that the per-request children need not import it
+    except Exception:
+        pass
+    while True:
+        try:
+            msg = conn.recv()
+        except (EOFError, OSError):
+            return
+        if msg is None:
+            return
+        ticket, cfg = msg
+        a, b = ctx.Pipe(duplex=False)
+        p = ctx.Process(target=_pristine_one, args=(cfg, b))
+        p.start()
+        b.close()
+        try:
+            out = a.recv()
+        except (EOFError, OSError):
+            out = ("infra", "the reference process died")
+        p.join()
+        a.close()
+        conn.send((ticket, out))
+
+
+class Pristine(object):
+    """Single-process matrices of fresh objects computed in processes that have NEVER built anything: a server is forked from
+    the harness before its first call into the library, and forks one short-lived child per request.  A reference computed
+    inside the long-lived harness process shares module- and class-level state with every build made before it; if the
+    library keeps such state (a memo keyed without one of the arguments, geometry remembered per class), that reference is
+    wrong in the same way as the build it is compared with.  These are not."""
+
+    def __init__(self):
+        ctx = multiprocessing.get_context("fork")
+        self.conn, child = ctx.Pipe()
+        self.proc = ctx.Process(target=_pristine_server, args=(child,))
+        self.proc.start()
+        child.close()
+        self.asked = 0
+        self.answers = {}
+        self.context = {}         # ticket -> (configuration, the configurations seen before it)
+        self.searched = False
+
+    def ask(self, cfg):
+        """request the matrix (computed while the asking process goes on); returns a ticket for `answer`.  A list
+        [(mode, configuration), …] asks for the LAST matrix of that sequence of builds made in one pristine process."""
+        self.asked += 1
+        self.conn.send((self.asked, cfg))
+        if not isinstance(cfg, list):
+            self.context[self.asked] = (cfg, [c for k, c in enumerate(BUILT[-60:]) if k == 0 or c is not BUILT[-60:][k - 1]])
+        return self.asked
+
+    def polluter(self, ticket, pristine_matrix):
+        """which single earlier configuration, built first in an otherwise pristine process, changes the matrix of the ticket's
+        configuration (searched once per run, most recent first; [] if none does alone)"""
+        cfg, before = self.context.get(ticket, (None, []))
+        if cfg is None or self.searched:
+            return []
+        self.searched = True
+        for c in reversed(before):
+            for mode in ("single", "mp"):
+                status, val = self.answer(self.ask([(mode, c), ("single", cfg)]))
+                if status == "infra":
+                    return []
+                if status != "ok" or not same_bits(val, pristine_matrix):
+                    return [[mode, c]]
+        return []
+
+    def answer(self, ticket):
+        while ticket not in self.answers:
+            if not self.conn.poll(300):
+                raise OSError("the pristine reference server does not answer")
+            t, out = self.conn.recv()
+            self.answers[t] = out
+        return self.answers.pop(ticket)
+
+    def close(self):
+        try:
+            self.conn.send(None)
+            self.proc.join(10)
+        except (OSError, ValueError):
+            pass
+        if self.proc.is_alive():
+            self.proc.terminate()
+            self.proc.join()
+        self.conn.close()
+
+
+PRISTINE = None
+
+
+def ask_pristine(cfg):
+    return PRISTINE.ask(cfg) if PRISTINE is not None else None
+
+
+def against_pristine(ticket, ref, context):
+    """[] if the in-process reference `ref` is the matrix a process that never built anything computes (asked for with
+    `ask_pristine` before `ref` was computed, so that both run side by side), else one failure"""
+    if PRISTINE is None or ticket is None:
+        return []
+    status, val = PRISTINE.answer(ticket)
+    if status == "infra":
+        raise OSError("pristine reference process: %s" % val)
+    if status != "ok":
+        return [("raises:fresh-process:" + context, "the single-process build of a fresh object succeeds in the long-lived process "
+                 "but fails in a process that has not built anything before (%s)" % val)]
+    if not same_bits(val, ref):
+        what = ("the single-process matrix of a FRESH object computed in the long-lived process (after other builds, %s) differs from "
+                "the one computed in a process that has not built anything before — state is carried over between objects: %s"
+                % (context, first_diff(ref, val)))
+        after = PRISTINE.polluter(ticket, val)
+        if after:
+            what += " [reproduced in a pristine process by first building (%s) a %s system]" % (after[0][0], cfg_class(after[0][1]))
+            POLLUTER_OF[what] = after
+        return [("fresh-object≠fresh-process:" + context, what)]
+    return []
+
+
+POLLUTER_OF = {}          # failure text -> [[mode, configuration]] to be built first when the failure is replayed
+
+
 # ------------------------------------------------------------------------------------------ scenarios (oracle)
 EDITS = ["scale2", "nan", "plus1", "zero-diagonal"]
 
@@ -459,7 +862,9 @@ def run_history(cfg, scen, ref=None):
 
     def factory(processes):
         if scen.get("pool") == "real":
-            p = multiprocessing.get_context("fork").Pool(processes)
+            # "fork" workers inherit the parent's memory (and the delay wrapper); "spawn" / "forkserver" workers import the
+            # library afresh and see nothing the parent set up after import (the start method of Windows and macOS)
+            p = multiprocessing.get_context(scen.get("start_method", "fork")).Pool(processes)
             live.append(p)
             return p
         return ControlledPool(processes, chooser, pickled=scen.get("pickled", True))
@@ -467,19 +872,73 @@ def run_history(cfg, scen, ref=None):
     attrs = {}
     if scen.get("pool") == "real" and scen.get("delay_seed") is not None:
         attrs["wfs_covariance"] = _Delayed(sc.wfs_covariance, scen["delay_seed"])
-    prev_mode, edited, earlier, reconf = None, False, [], False
+    prev_mode, edited, earlier, reconf, sibling = None, False, [], "", ""
     with pool_patch(factory), patched(**attrs):
         try:
             for n_op, op in enumerate(scen["ops"]):
                 if op[0] == "T":
-                    obj.threads = op[1]
+                    obj.threads = _int(cfg, op[1])
                 elif op[0] == "C":
                     # the caller assigns new constructor attributes: from here on the reference is a FRESH object made with them
                     cfg = dict(cfg)
                     cfg[op[1]] = op[2]
-                    setattr(obj, op[1], numpy.array(op[2]) if op[1] == "layer_altitudes" else _as_container(cfg, op[2], op[1]))
+                    setattr(obj, op[1], _field(cfg, op[1], op[2]))
+                    ticket = ask_pristine(cfg)
                     ref = make_obj(cfg, 1).make_covariance_matrix()
-                    reconf = True
+                    reconf = ":after-reconfigure"
+                    fails.extend((k, w, n_op) for k, w in against_pristine(ticket, ref, "reference-after-reconfigure:" + op[1]))
+                elif op[0] == "CI":
+                    # the caller writes new numbers INTO the array / list it gave to the constructor (the object holds that very
+                    # container); where the container cannot be written (tuple, read-only array) it is re-assigned as in "C"
+                    cfg = dict(cfg)
+                    if _write_into(getattr(obj, op[1]), op[2]):
+                        cfg[op[1]] = numpy.asarray(getattr(obj, op[1]), dtype=numpy.float64).tolist()
+                        reconf = ":after-inplace-reconfigure"
+                    else:
+                        cfg[op[1]] = op[2]
+                        setattr(obj, op[1], _field(cfg, op[1], op[2]))
+                        reconf = ":after-reconfigure"
+                    ticket = ask_pristine(cfg)
+                    ref = make_obj(cfg, 1).make_covariance_matrix()
+                    fails.extend((k, w, n_op) for k, w in against_pristine(ticket, ref, "reference%s:%s" % (reconf, op[1])))
+                elif op[0] == "X":
+                    # a SECOND instrument built in between: it is described by the same caller arrays as `obj` (the very objects),
+                    # except argument op[1] (a fresh container holding op[2]; "none" = a twin) — its matrix must be the one a fresh
+                    # single-process object made from the numbers alone gives, and `obj` must not notice
+                    scfg = dict(cfg)
+                    if op[1] != "none":
+                        scfg[op[1]] = op[2]
+                    ticket = ask_pristine(scfg)
+                    sref = make_obj(scfg, 1).make_covariance_matrix()
+                    fails.extend((k, w, n_op) for k, w in against_pristine(ticket, sref, "sibling-reference:" + ("twin" if op[1] == "none" else "differs-in-" + op[1])))
+                    sib = make_obj(scfg, op[3], share=obj, fresh=(op[1],))
+                    smode = "single" if op[3] == 1 else "mp"
+                    state.update(kind=op[4], seed=op[5], calls=0)
+                    what = "twin" if op[1] == "none" else "differs-in-" + op[1]
+                    try:
+                        sout = sib.make_covariance_matrix()
+                    except (OSError, MemoryError):
+                        raise
+                    except Exception as ex:
+                        fails.append(("raises:sibling:%s:%s:%s" % (smode, what, type(ex).__name__),
+                                      "a second object sharing the caller's arrays with the first (%s; %s, threads=%s, schedule %s), built after "
+                                      "%d build(s) of the first, raised %s: %s" % (what, smode, op[3], op[4:], len(outs), type(ex).__name__, ex), n_op))
+                    else:
+                        if not same_bits(sout, sref):
+                            fails.append(("sibling:%s≠single:%s%s" % (smode, what, ":after-%s-build" % prev_mode if prev_mode else ""),
+                                          "a second object sharing the caller's arrays with the first (%s; %s, threads=%s, schedule %s), built "
+                                          "after %d build(s) of the first, differs from the single-process matrix of a fresh object made from "
+                                          "the same numbers: %s" % (what, smode, op[3], op[4:], len(outs), first_diff(sout, sref)), n_op))
+                    sibling = ":after-sibling-build"
+                elif op[0] == "R":
+                    # the sibling method that consumes the matrix (its result is not C03's subject; a NaN-edited matrix may not invert)
+                    if outs and cfg["n_wfs"] >= 2:
+                        try:
+                            obj.make_tomographic_reconstructor(op[1])
+                        except (OSError, MemoryError):
+                            raise
+                        except Exception:
+                            pass
                 elif op[0] == "E":
                     if outs:
                         apply_edit(outs[-1], op[1])
@@ -507,8 +966,7 @@ def run_history(cfg, scen, ref=None):
                         if prev_mode is None:
                             key = "%s≠single:first-build" % mode
                         else:
-                            key = "rebuild:%s→%s%s%s" % (prev_mode, mode, ":after-inplace-edit" if edited else "",
-                                                          ":after-reconfigure" if reconf else "")
+                            key = "rebuild:%s→%s%s%s%s" % (prev_mode, mode, ":after-inplace-edit" if edited else "", reconf, sibling)
                         fails.append((key, "build #%d (%s, threads=%s, schedule %s) differs from the single-process matrix of a "
                                       "fresh object%s: %s" % (len(outs), mode, obj.threads, op[1:] or "-",
                                                                " made with the re-assigned attributes" if reconf else "",
@@ -547,22 +1005,75 @@ class _Delayed(object):
         return out
 
 
+def _write_into(container, value):
+    """the caller overwrites the numbers of a container it owns, in place; False if that container cannot be written"""
+    if isinstance(container, numpy.ndarray):
+        if not container.flags.writeable:
+            return False
+        container[...] = numpy.array(value)
+        return True
+    if isinstance(container, list):
+        if any(isinstance(x, tuple) for x in container):
+            return False
+        for k, v in enumerate(value):
+            if isinstance(container[k], list):
+                container[k][:] = list(v)
+            elif isinstance(container[k], numpy.ndarray):
+                container[k][...] = v
+            else:
+                container[k] = type(container[k])(v) if isinstance(container[k], int) and float(v).is_integer() else v
+        return True
+    return False
+
+
+def gen_sibling(rng, cfg, tasks):
+    """["X", argument, new value, threads, schedule kind, seed]"""
+    f = rng.choice(["none", "gs_positions", "gs_positions", "pupil_masks", "pupil_masks", "layer_r0s", "wfs_wavelengths", "layer_altitudes"])
+    if f == "none":
+        v = None
+    elif f == "pupil_masks":                     # the same numbers of sub-apertures in another arrangement
+        v = []
+        for m in cfg["pupil_masks"]:
+            how = rng.choice(["rot180", "transpose", "flipud"])
+            if how == "transpose" and len(m) == len(m[0]):
+                v.append([list(r) for r in zip(*m)])
+            elif how == "flipud":
+                v.append([list(r) for r in m[::-1]])
+            else:
+                v.append([list(r[::-1]) for r in m[::-1]])
+    elif f == "gs_positions":
+        v = [[rng.uniform(-30, 30), rng.uniform(-30, 30)] for _ in cfg[f]]
+    elif f == "layer_r0s":
+        v = [r * 1.5 for r in cfg[f]]
+    elif f == "wfs_wavelengths":
+        v = [w * 2.0 for w in cfg[f]]
+    else:
+        v = [h + 250.0 for h in cfg[f]]
+    return ["X", f, v, rng.choice([1, 2, 3, tasks + 1]), rng.choice(SCHED_KINDS), rng.randrange(10 ** 6)]
+
+
 def gen_history(rng, n_ops, tasks, cfg=None, reconfigure=False):
     threads0 = rng.choice([1, 1, 2, 3, 4, 8, tasks + 3])
     ops, built = [], False
     cur = cfg
     for _ in range(n_ops):
         c = rng.random()
-        if c < 0.3:
+        if c < 0.27:
             ops.append(["T", rng.choice([1, 1, 2, 3, 5, 8, 2 * tasks, 4 * tasks + 1])])
-        elif reconfigure and cur is not None and built and c < 0.55:
+        elif reconfigure and cur is not None and built and c < 0.52:
             ops.append(gen_reconfigure(rng, cur))
+            if rng.random() < 0.5:               # the new numbers are written into the caller's container instead of re-assigned
+                ops[-1][0] = "CI"
             cur = dict(cur)
             cur[ops[-1][1]] = ops[-1][2]
-        elif c < 0.42 and built:
+        elif c < 0.38 and built:
             ops.append(["E", rng.choice(EDITS)])
-        elif c < 0.5 and built:
+        elif c < 0.45 and built:
             ops.append(["MP1", rng.choice(SCHED_KINDS), rng.randrange(10 ** 6)])
+        elif c < 0.55 and built and cur is not None:
+            ops.append(gen_sibling(rng, cur, tasks))
+        elif c < 0.60 and built:
+            ops.append(["R", rng.choice([0, 0.01])])
         else:
             ops.append(["B", rng.choice(SCHED_KINDS), rng.randrange(10 ** 6)])
             built = True
@@ -576,7 +1087,80 @@ def report(chk, cfg, scen, fails):
         chk.notes.append("observation: a later build wrote into an array returned by an earlier build (e.g. %s, %s)" % (obs[0], cfg_class(cfg)))
     for key, what, n_op in fails:
         chk.fail(key, "%s [%s, %d ops]" % (what, cfg_class(cfg), len(scen["ops"])),
-                 {"cfg": cfg, "scenario": dict(scen, ops=scen["ops"][:n_op + 1]), "key": key})
+                 {"cfg": cfg, "scenario": dict(scen, ops=scen["ops"][:n_op + 1]), "key": key, "after": POLLUTER_OF.get(what, [])})
+
+
+def exercise(chk, rng, cfg, it, quick, light=False):
+    """everything the oracle does with ONE configuration under the controlled pool"""
+    tasks = n_tasks(cfg)
+    chk.count("oracle:" + cfg_class(cfg))
+    if cfg.get("decor", "legacy") != "legacy":
+        chk.count("held-as:" + cfg["decor"])
+        chk.count("masks-as:" + cfg.get("mask_kind", "float"))
+    ticket = ask_pristine(cfg)
+    o1, o2 = make_obj(cfg, 1), make_obj(cfg, 1)
+    ref = o1.make_covariance_matrix()
+    chk.oracle_cases += 1
+    chk.case(("oracle-ref", it), sample={"n_wfs": cfg["n_wfs"], "n_layers": cfg["n_layers"], "shape": list(ref.shape)} if it in (0, 1) else None)
+    if not same_bits(ref, o2.make_covariance_matrix()):
+        chk.fail("single≠single:two-fresh-objects", "two fresh single-process builds differ: %s" % cfg_class(cfg), {"cfg": cfg})
+    for key, what in against_pristine(ticket, ref, "first-reference"):
+        chk.fail(key, "%s [%s]" % (what, cfg_class(cfg)), {"cfg": cfg, "key": key, "after": POLLUTER_OF.get(what, [])})
+    # fresh object, k workers, adversarial schedule
+    for kind in (SCHED_KINDS if not (quick or light) else rng.sample(SCHED_KINDS, 2 if light and quick else 3)):
+        k = rng.choice([2, 3, 4, 7, 8, tasks, 4 * tasks + 1])
+        scen = {"threads0": max(k, 2), "pool": "controlled", "pickled": True, "ops": [["B", kind, rng.randrange(10 ** 6)]]}
+        fails, _ = run_history(cfg, scen, ref)
+        chk.oracle_cases += 1
+        chk.case(("oracle-fresh", it, kind, k))
+        chk.count("schedule:" + kind)
+        report(chk, cfg, scen, fails)
+    # MANY workers for few tasks (a pool larger than one layer's task list invites batching several layers per round; one as large
+    # as the whole job — layers × pairs — invites queueing everything at once)
+    many, whole = [2 * tasks, 3 * tasks + 1, 4 * tasks + 1], [cfg["n_layers"] * tasks, cfg["n_layers"] * tasks + 1]
+    if cfg["n_layers"] <= 4:                      # then 4·tasks+1 workers already are as many as the whole job has tasks
+        whole = []
+    for k in ([rng.choice(many)] + whole[:1] if light and quick else many + whole):
+        scen = {"threads0": max(k, 2), "pool": "controlled", "pickled": rng.random() < 0.5,
+                "ops": [["B", rng.choice(SCHED_KINDS), rng.randrange(10 ** 6)], ["B", rng.choice(SCHED_KINDS), rng.randrange(10 ** 6)]]}
+        fails, outs = run_history(cfg, scen, ref)
+        chk.oracle_cases += len(outs)
+        chk.case(("oracle-many-workers", it, k))
+        chk.count("many-workers:layers%s" % (">=2" if cfg["n_layers"] >= 2 else "1"))
+        report(chk, cfg, scen, fails)
+    # a second and third build of the same object in every order of modes (first build already compared above)
+    for modes in ((rng.choice(((1, 3), (3, 1))),) if light and quick else ((1, 1), (1, 3), (3, 1))):
+        scen = {"threads0": modes[0], "pool": "controlled", "pickled": True,
+                "ops": [["B", "random", rng.randrange(10 ** 6)], ["T", modes[1]], ["B", "random", rng.randrange(10 ** 6)],
+                        ["B", "reverse", 0]]}
+        fails, outs = run_history(cfg, scen, ref)
+        chk.oracle_cases += len(outs)
+        chk.case(("oracle-rebuild", it, modes))
+        chk.count("rebuild-modes")
+        report(chk, cfg, scen, fails)
+    # a twin / a sibling object made from the same caller arrays, before and after builds of the first, in every pair of modes
+    pairs = ((1, 2), (2, 2), (2, 1))
+    for m0, m1 in ((rng.choice(pairs),) if quick else pairs):
+        if quick and not light and isinstance(it, int) and it % 2:      # quick tier: every second general configuration (the histories
+            break                                                       # below contain sibling builds as well)
+        scen = {"threads0": m0, "pool": "controlled", "pickled": True,
+                "ops": [["B", "random", rng.randrange(10 ** 6)], gen_sibling(rng, cfg, tasks)[:3] + [m1, "reverse", 0],
+                        ["B", "random", rng.randrange(10 ** 6)]]}
+        fails, outs = run_history(cfg, scen, ref)
+        chk.oracle_cases += len(outs) + 1
+        chk.case(("oracle-sibling", it, m0, m1, scen["ops"][1][1]))
+        chk.count("sibling:" + scen["ops"][1][1])
+        report(chk, cfg, scen, fails)
+    # histories
+    for h in range((1 if light else 2) if quick else 6):
+        scen = gen_history(rng, rng.randint(3, 7 if quick else 12), tasks, cfg, reconfigure=(h % 2 == 1 or (light and quick and rng.random() < 0.5)))
+        fails, outs = run_history(cfg, scen, ref)
+        chk.oracle_cases += len(outs)
+        chk.case(("oracle-history", it, h), sample={"history": scen["ops"][:6]} if it == 0 and h == 0 else None)
+        chk.count("history-builds", len(outs))
+        for code, name in (("C", "reconfigure"), ("CI", "inplace-reconfigure"), ("X", "sibling"), ("R", "reconstructor")):
+            chk.count("history-%s-ops" % name, sum(1 for op in scen["ops"] if op[0] == code))
+        report(chk, cfg, scen, fails)
 
 
 def oracle(chk, quick):
@@ -584,51 +1168,32 @@ def oracle(chk, quick):
     n_cfg = 24 if quick else 500
     for it in range(n_cfg):
         cfg = gen_config(rng, thorough=not quick, hetero=(it % 3 == 0))
+        if it % 6 == 4 and cfg["n_layers"] >= 2:   # the layers not listed from the ground up
+            cfg = shuffle_layers(rng, cfg)
+        # how the caller holds the numbers: every fourth configuration single precision throughout, every fourth drawn from all
+        # holdings (dtypes, containers, memory layouts, mask types, NumPy integers, entry point), the rest as in rounds 1-4
+        cfg = decorate(rng, cfg, "f4-all" if it % 4 == 1 else None if it % 4 == 3 else "legacy")
+        exercise(chk, rng, cfg, it, quick)
+    # input classes the general generator never produces
+    for n, kind in enumerate(SPECIALS * (1 if quick else 12)):
+        cfg = decorate(rng, gen_special(rng, kind, not quick), None if n % 2 else "legacy")
+        exercise(chk, rng, cfg, ("special", kind, n), quick, light=True)
+        chk.count("special:" + kind)
+    # a LONG life of one object: more builds than any per-object buffer is long, modes alternating irregularly
+    for n in range(1 if quick else 10):
+        cfg = decorate(rng, gen_config(rng, max_wfs=3), None)
         tasks = n_tasks(cfg)
-        chk.count("oracle:" + cfg_class(cfg))
-        o1, o2 = make_obj(cfg, 1), make_obj(cfg, 1)
-        ref = o1.make_covariance_matrix()
-        chk.oracle_cases += 1
-        chk.case(("oracle-ref", it), sample={"n_wfs": cfg["n_wfs"], "n_layers": cfg["n_layers"], "shape": list(ref.shape)} if it < 2 else None)
-        if not same_bits(ref, o2.make_covariance_matrix()):
-            chk.fail("single≠single:two-fresh-objects", "two fresh single-process builds differ: %s" % cfg_class(cfg), {"cfg": cfg})
-        # fresh object, k workers, adversarial schedule
-        for kind in (SCHED_KINDS if not quick else rng.sample(SCHED_KINDS, 3)):
-            k = rng.choice([2, 3, 4, 7, 8, tasks, 4 * tasks + 1])
-            scen = {"threads0": max(k, 2), "pool": "controlled", "pickled": True, "ops": [["B", kind, rng.randrange(10 ** 6)]]}
-            fails, _ = run_history(cfg, scen, ref)
-            chk.oracle_cases += 1
-            chk.case(("oracle-fresh", it, kind, k))
-            chk.count("schedule:" + kind)
-            report(chk, cfg, scen, fails)
-        # MANY workers for few tasks (a pool larger than one layer's task list invites batching several layers per round)
-        for k in (2 * tasks, 3 * tasks + 1, 4 * tasks + 1):
-            scen = {"threads0": max(k, 2), "pool": "controlled", "pickled": rng.random() < 0.5,
-                    "ops": [["B", rng.choice(SCHED_KINDS), rng.randrange(10 ** 6)], ["B", rng.choice(SCHED_KINDS), rng.randrange(10 ** 6)]]}
-            fails, outs = run_history(cfg, scen, ref)
-            chk.oracle_cases += len(outs)
-            chk.case(("oracle-many-workers", it, k))
-            chk.count("many-workers:layers%s" % (">=2" if cfg["n_layers"] >= 2 else "1"))
-            report(chk, cfg, scen, fails)
-        # a second and third build of the same object in every order of modes (first build already compared above)
-        for modes in ((1, 1), (1, 3), (3, 1)):
-            scen = {"threads0": modes[0], "pool": "controlled", "pickled": True,
-                    "ops": [["B", "random", rng.randrange(10 ** 6)], ["T", modes[1]], ["B", "random", rng.randrange(10 ** 6)],
-                            ["B", "reverse", 0]]}
-            fails, outs = run_history(cfg, scen, ref)
-            chk.oracle_cases += len(outs)
-            chk.case(("oracle-rebuild", it, modes))
-            chk.count("rebuild-modes")
-            report(chk, cfg, scen, fails)
-        # histories
-        for h in range(2 if quick else 6):
-            scen = gen_history(rng, rng.randint(3, 7 if quick else 12), tasks, cfg, reconfigure=(h % 2 == 1))
-            fails, outs = run_history(cfg, scen, ref)
-            chk.oracle_cases += len(outs)
-            chk.case(("oracle-history", it, h), sample={"history": scen["ops"][:6]} if it == 0 and h == 0 else None)
-            chk.count("history-builds", len(outs))
-            chk.count("history-reconfigure-ops", sum(1 for op in scen["ops"] if op[0] == "C"))
-            report(chk, cfg, scen, fails)
+        ops = []
+        for _ in range(rng.choice([18, 20]) if quick else rng.choice([40, 65, 130])):
+            if rng.random() < 0.5:
+                ops.append(["T", rng.choice([1, 2, 3, tasks + 1])])
+            ops.append(["B", rng.choice(SCHED_KINDS), rng.randrange(10 ** 6)])
+        scen = {"threads0": rng.choice([1, 2]), "pool": "controlled", "pickled": True, "ops": ops}
+        fails, outs = run_history(cfg, scen)
+        chk.oracle_cases += len(outs)
+        chk.case(("oracle-long-history", n, len(outs)))
+        chk.count("long-history-builds", len(outs))
+        report(chk, cfg, scen, [(k + ":long-history", wh, i) for k, wh, i in fails])
     # every completion order
     for n_wfs, limit in ((2, None), (3, 120 if quick else None)):
         cfg = gen_config(rng, n_wfs=n_wfs)
@@ -651,7 +1216,7 @@ def oracle(chk, quick):
     # real processes
     reals = [(1, 0), (2, 0), (3, 0), (4, 0), (8, 0)] if quick else [(w, r) for w in range(1, 9) for r in range(8)]
     for w, r in reals:
-        cfg = gen_config(rng, thorough=not quick, hetero=(w % 2 == 0))
+        cfg = decorate(rng, gen_config(rng, thorough=not quick, hetero=(w % 2 == 0)), "f4-all" if (w + r) % 4 == 3 else None if (w + r) % 4 == 0 else "legacy")
         ref = make_obj(cfg, 1).make_covariance_matrix()
         if w == 1:
             ops = [["B"], ["MP1"], ["T", 2], ["B"], ["MP1"]]
@@ -664,6 +1229,29 @@ def oracle(chk, quick):
         chk.case(("oracle-realpool", w, r))
         chk.count("real-pool:workers%d" % w)
         report(chk, cfg, scen, [(k.replace("mp", "mp(real-pool)"), wh, n) for k, wh, n in fails])
+    # real processes on the special classes: results of the large sensors exceed the 64 kB of a pipe buffer; many layers = many
+    # rounds through one pool; many sensors = several tasks per chunk
+    for n, (kind, w) in enumerate([("large", 3), ("many-layers", 2), ("many-wfs", 2)] * (1 if quick else 6)):
+        cfg = decorate(rng, gen_special(rng, kind, not quick), None if n % 2 else "legacy")
+        scen = {"threads0": w, "pool": "real", "delay_seed": rng.randrange(10 ** 6),
+                "ops": [["B"], ["T", 1], ["B"]] + ([] if quick else [["T", w + 1], ["B"]])}
+        fails, outs = run_history(cfg, scen)
+        chk.oracle_cases += len(outs)
+        chk.case(("oracle-realpool-special", kind, w, n))
+        chk.count("real-pool:special:" + kind)
+        report(chk, cfg, scen, [(k.replace("mp", "mp(real-pool)"), wh, i) for k, wh, i in fails])
+    # workers that do NOT inherit the parent's memory (start methods spawn / forkserver: Windows, macOS, Python >= 3.14): they import
+    # the library afresh, so nothing the parent computed or stored after import is visible to them except the pickled arguments
+    starts = [("spawn", 2)] if quick else [("spawn", 2), ("spawn", 3), ("forkserver", 2), ("forkserver", 5)]
+    for method, w in starts:
+        cfg = decorate(rng, gen_config(rng, hetero=True, max_wfs=3), "f4-all" if w % 2 else None)
+        scen = {"threads0": w, "pool": "real", "start_method": method, "delay_seed": None,
+                "ops": [["B"], ["T", 1], ["B"]] + ([] if quick else [["T", w], ["B"]])}
+        fails, outs = run_history(cfg, scen)
+        chk.oracle_cases += len(outs)
+        chk.case(("oracle-realpool-start-method", method, w))
+        chk.count("real-pool:start-method:" + method)
+        report(chk, cfg, scen, [(k.replace("mp", "mp(real-pool:%s)" % method), wh, i) for k, wh, i in fails])
 
 
 # ------------------------------------------------------------------------------------------ correspondence 1: Pool.map
@@ -1236,20 +1824,44 @@ def run(chk):
                 "counts (2 … 4·tasks+1, i.e. also pools much larger than one layer's task list), schedules, rebuild histories "
                 "(thread toggles, in-place edits of returned matrices, re-assigned constructor attributes — then against a fresh "
                 "object made with the new attributes); every third configuration is heterogeneous (different sub-aperture sizes, "
-                "off-axis NGS + LGS, >= 2 layers, one well above ground); distinct = distinct (configuration, schedule, history)")
+                "off-axis NGS + LGS, >= 2 layers, one well above ground); distinct = distinct (configuration, schedule, history). "
+                "Round 5: half of the configurations are HELD by the caller in other ways than lists / float64 arrays (every number "
+                "float32; tuples; integer arrays / Python ints where integral; strided, negative-stride, Fortran, read-only, broadcast "
+                "arrays; masks bool / int / uint8 / float32 / one 3-D array / strided / read-only; NumPy integers for n_wfs, n_layers, "
+                "threads; package-level class names); special classes (32-52 sub-apertures per sensor, 9-35 layers, 6-8 sensors, a "
+                "sensor with one sub-aperture, layers sharing altitude or turbulence, on-axis NGS, layers not listed from the ground "
+                "up); histories also contain a SECOND object made from the very arrays of the first (twin / one argument differing, "
+                "masks re-arranged), new numbers written INTO the caller's arrays, calls of make_tomographic_reconstructor, one long "
+                "life of 18-130 builds; every reference computed in the long-lived harness process after other builds (first reference "
+                "of a configuration, after reconfiguration, of a sibling) is compared bitwise with the matrix a process that never built "
+                "anything computes; real pools also on the special classes and with the spawn / forkserver start methods")
     chk.assumptions = [
         "wfs_covariance, the four `+=` of one task and mirror_covariance_matrix are functions of their arguments "
         "(uninterpreted in the model; sampled by the oracle under permuted execution orders and across processes)",
         "the OS scheduler is abstracted to the completion order of Pool.map's chunks, each chunk completing once; "
         "CPython's MapResult slice assignment is modelled per chunk slot (checked against the real MapResult each run)",
         "pickling of arguments/results between processes preserves float64 bit patterns (sampled, not modelled)",
-        "worker processes compute with the same libm/BLAS as the parent (fork); cross-machine pools are outside the model",
+        "worker processes compute with the same libm/BLAS as the parent (fork, spawn, forkserver on this machine); cross-machine pools "
+        "are outside the model",
+        "state shared between OBJECTS (class or module level) is outside the Lean state machine (one object); it is sampled by the oracle: "
+        "sibling objects sharing the caller's arrays, and references recomputed in a process that has not built anything",
         "`poolMap_eq` at workers = 0 holds only through Lean's n % 0 = n (no such pool exists: Pool(0) raises, `build` = none); the "
         "statement about CPython is `poolMap_eq_pos` / `chunkSize_spec` (workers >= 1)",
         "re-assigned constructor attributes between builds: `reconfigure_between_builds` is a corollary of `rebuild_idempotent` in the "
         "model (cfg is read afresh by every build); on the real object it is sampled by the oracle only (the Lean state-machine "
         "correspondence does not replay such histories); masks are not re-assigned (n_subaps is computed by the constructor)",
     ]
+    global PRISTINE
+    PRISTINE = Pristine()                         # forked BEFORE the first call into the library
+    try:
+        _run(chk, quick)
+    finally:
+        PRISTINE.close()
+        chk.count("references-from-a-pristine-process", PRISTINE.asked)
+        PRISTINE = None
+
+
+def _run(chk, quick):
     chk.build_and_audit("AoVerif.Props.C03", "AoVerif.Props.C03", REQUIRED)
     static_tie(chk)
     static_fields(chk)
@@ -1267,12 +1879,25 @@ def run(chk):
 
 def replay(rec):
     """./check C03 --replay file : re-run the recorded scenario on the real code"""
+    global PRISTINE
     f = rec.get("failure")
-    if not f or "scenario" not in f.get("replay", {}):
+    if not f or "cfg" not in f.get("replay", {}):
         print("nothing to replay on the real code (the record names a broken proof / correspondence obligation)")
         return 1
-    cfg, scen = f["replay"]["cfg"], f["replay"]["scenario"]
-    fails, outs = run_history(cfg, scen)
+    cfg = f["replay"]["cfg"]
+    scen = f["replay"].get("scenario") or {"threads0": 1, "pool": "controlled", "pickled": True, "ops": [["B", "fifo", 0]]}
+    PRISTINE = Pristine()
+    try:
+        if f["replay"].get("after"):             # what this process had built before (found to matter when the failure was recorded)
+            _build_sequence([(m, c) for m, c in f["replay"]["after"]])
+        ticket = ask_pristine(cfg)
+        ref = make_obj(cfg, 1).make_covariance_matrix()
+        fails = [(k, w, 0) for k, w in against_pristine(ticket, ref, "first-reference")]
+        more, outs = run_history(cfg, scen, ref)
+        fails += more
+    finally:
+        PRISTINE.close()
+        PRISTINE = None
     for key, what, n_op in fails:
         print("STILL FAILS [%s] %s" % (key, what))
     if not fails:
